@@ -58,8 +58,8 @@ package olla
 //@   ensures res != nil && res.transport != nil
 
 //@ func (s *Service) streamResponse
-//@   trusted not yet under contract: the streaming loop (see C18); assumed to write only to w
-//@   modifies ghost(w).started, ghost(w).status
+//@   trusted the loop itself (timer, contexts, error classes) is not under contract; its body is one processStreamData call per iteration (C18 proves that helper); assumed to write only to w
+//@   modifies ghost(w).started, ghost(w).status, gvar unflushed, gvar evBroken
 //@   ensures old(ghost(w).started) ==> ghost(w).started
 //@   ensures !errorsAs(res2, "*core.ResponseStartedError") && !errorsIs(res2, core.ErrCircuitOpen)
 
@@ -88,3 +88,27 @@ package olla
 //@   ensures lastIsOpen ==> rtCount == old(rtCount) && res != nil && circuitOpen(res) && !ghost(w).started
 //@   at call RoundTrip 1 assert proxyReq != nil && proxyReq.Method == r.Method && proxyReq.Body == r.Body && !ghost(w).started
 //@   at call RoundTrip 1 assert forall k string :: has(proxyReq.Header, k) ==> !sensHeader(k) && !hopHeader(k)
+
+// ---- C18: live delivery. In streaming mode every chunk written to the client is flushed before the engine goes
+// back to read the next one: `unflushed` (bytes handed to the writer since the last successful flush) is zero at
+// every return of processStreamData that continues the loop, unless the transport is already broken.
+//@ func writeStreamData
+//@   property C18
+//@   safety
+//@   requires w != nil && rc != nil
+//@   modifies ghost(w).started, ghost(w).status, gvar unflushed, gvar evBroken
+//@   ensures old(evBroken) ==> evBroken
+//@   ensures isStreaming && res1 == nil && old(unflushed) == 0 ==> unflushed == 0 || evBroken
+//@   ensures res1 == nil ==> ghost(w).started
+
+//@ func shouldStopAfterDisconnect
+//@   property C18
+//@   safety
+
+//@ func (s *Service) processStreamData
+//@   property C18
+//@   safety
+//@   requires s != nil && resp != nil && resp.Body != nil && state != nil && w != nil && rc != nil && rlog != nil && len(buffer) > 0
+//@   modifies ghost(w).started, ghost(w).status, gvar unflushed, gvar evBroken, state.lastChunk, state.lastChunkBuf, state.totalBytes, state.bytesAfterDisconnect, ghost remaining, ghost backing
+//@   ensures old(evBroken) ==> evBroken
+//@   ensures isStreaming && old(unflushed) == 0 && res == nil ==> unflushed == 0 || evBroken
